@@ -14,8 +14,9 @@ with V.build_lock():
     V.ensure_theory()
     ok, fails = CS.build_conv(None)
     assert ok, fails
-    hdr = ("From LSP Require Import Base Sem SemThy Denote PtyEq RoundTrip HookFrag.\nFrom Gen Require Import PkgData.\n"
-           "Definition cov := Eval vm_compute in iter_shrink Sg 16 (cover0 Sg).\nSet Printing Width 100000.\nSet Printing Depth 100000.\n")
+    hdr = ("From LSP Require Import Base MM Sem SemThy Denote PtyEq RoundTrip HookFrag Image ImageThy Link.\nFrom Gen Require Import MMData PkgData.\n"
+           "Definition nltab := Eval vm_compute in nl_table mm.\n"
+           "Definition cov := Eval vm_compute in iter_shrink Sg (NLtab nltab) 16 (cover0 Sg).\nSet Printing Width 100000.\nSet Printing Depth 100000.\n")
     outs = V.coq_eval("MkCover", hdr, [
         "filter (fun c => negb (mem c (fst cov))) (map fst (classes Sg))",
         "filter (fun u => negb (existsb (pty_eqb u) (snd cov))) (map fst (uhooks Sg))",
